@@ -235,6 +235,38 @@ fn run_closed(c: &mut Ctx) {
         }
     }
 
+    // ---- a coarse curve tolerance must not move the section: the `tol` argument only governs the
+    // de-duplication of the returned curves.  Plane close to a vertex (closer than `tol`, but well
+    // clear of the library's own 1e-6 snapping distance), tolerance up to 3% of the mesh size.
+    if c.rng.chance(0.3) {
+        let v0 = *c.rng.pick(&raw.v);
+        let delta = (size * c.rng.log_range(2e-4, 5e-3)).max(4e-6) * c.rng.sign();
+        let d2 = n.dot(&v0.coords) + delta;
+        let coarse = Some(delta.abs() * c.rng.range(2.0, 6.0));
+        if min_vertex_clearance(&raw, &n, d2) >= 0.9 * delta.abs() {
+            let plane2 = Plane3::new(UnitVec3::new_normalize(n), d2);
+            let r = guard(|| mesh.section(&plane2, coarse).map(|v| v.iter().map(|cv| cv.points().to_vec()).collect::<Vec<_>>()));
+            c.eval();
+            match r {
+                Err(p) => {
+                    c.check("Mesh::section", "no-panic", class, false, || format!("{} {} (coarse tolerance)", p.sig(), p.msg));
+                }
+                Ok(Err(_)) => c.note("section with a coarse tolerance: Err (not judged)"),
+                Ok(Ok(cv)) => {
+                    let mut worst_plane = 0.0f64;
+                    let mut worst_surf = 0.0f64;
+                    for p in cv.iter().flatten() {
+                        worst_plane = worst_plane.max((n.dot(&p.coords) - d2).abs());
+                        worst_surf = worst_surf.max(oracle::brute_mesh(&raw.v, &raw.f, p).0);
+                    }
+                    c.close("Mesh::section", "every vertex on the plane whatever the curve tolerance", class, worst_plane, 0.0, eps);
+                    c.close("Mesh::section", "every vertex on the mesh surface whatever the curve tolerance", class, worst_surf, 0.0, eps);
+                    // (a tiny loop around the vertex may legitimately collapse under the de-duplication)
+                }
+            }
+        }
+    }
+
     // ---- equivariance
     if c.rng.chance(0.4) && ncross > 0 {
         let t = gen::iso3(&mut c.rng, 2.0 * size);
